@@ -435,12 +435,31 @@ func (g *gen) pickNested(m *Message) []*Field {
 
 // orderBuild: exactly two entries with symbolic distinct keys and fixed values
 func (g *gen) orderBuild(m *Message, f *Field) {
-	g.p("func vhOrderBuild_%s_%s(x *%s, p string) {", m.GoName, f.GoName, m.GoName)
+	g.orderBuildV(m, f, false)
+	g.orderBuildV(m, f, true)
+}
+
+// small: integer keys are non-negative one-byte varints in every tier (used where the map
+// sits below another message and only "sorted at all" is in question; the key domain,
+// signed order included, is the business of the top-level _order harnesses)
+func (g *gen) orderBuildV(m *Message, f *Field, small bool) {
+	name := "vhOrderBuild"
+	if small {
+		name = "vhOrderBuildSmall"
+	}
+	g.p("func %s_%s_%s(x *%s, p string) {", name, m.GoName, f.GoName, m.GoName)
 	g.p("\tx.%s = %s{}", f.GoName, f.MapGo)
 	g.p("\tk0 := %s", g.symExpr(f.Key, "p+\".k0\"", g.keyLen))
 	g.p("\tk1 := %s", g.symExpr(f.Key, "p+\".k1\"", g.keyLen))
 	g.p("\tvhAssume(k0 != k1)")
-	if g.tier != "thorough" {
+	if small {
+		switch f.Key.Kind {
+		case "int32", "int64", "sint32", "sint64":
+			g.p("\tvhAssume(k0 >= 0 && k0 <= 63 && k1 >= 0 && k1 <= 63)")
+		case "uint32", "uint64":
+			g.p("\tvhAssume(k0 <= 127 && k1 <= 127)")
+		}
+	} else if g.tier != "thorough" {
 		switch f.Key.Kind {
 		case "int32", "int64", "sint32", "sint64":
 			g.p("\tvhAssume(k0 >= -64 && k0 <= 63 && k1 >= -64 && k1 <= 63)")
@@ -730,6 +749,14 @@ func (g *gen) codecDrivers(m *Message) {
 	g.p("\tvhAssert(\"marshal.noerr\", err == nil)")
 	g.p("\tspec := vhSpec_%s(nil, x)", n)
 	g.p("\tvhAssertBytesEq(\"reference\", out.Buf, spec)")
+	g.p("\tif !vhSymbolic() {")
+	g.p("\t\t// native replay: the executor took every map iteration order, Go draws one per range")
+	g.p("\t\t// statement (for a small map the reversed one with probability 1/8): repeat")
+	g.p("\t\tfor i := 0; i < 64; i++ {")
+	g.p("\t\t\to2, _ := methods.Marshal(protoiface.MarshalInput{Message: msg, Flags: protoiface.MarshalDeterministic})")
+	g.p("\t\t\tvhAssertBytesEq(\"reference\", o2.Buf, spec)")
+	g.p("\t\t}")
+	g.p("\t}")
 	g.p("}")
 	g.p("")
 	// C01
@@ -884,6 +911,93 @@ func (g *gen) harnessUnknown(prop string, m *Message) {
 			g.p("\tvh%s_%s(x%s)", prop, n, extraArg(prop, "nil"))
 			g.p("}")
 			g.p("")
+		}
+	}
+	if prop == "C02" {
+		// a two-entry map one or two levels down, in every container shape: the bytes of the
+		// whole message against the reference encoder (Deterministic has to reach every
+		// nested marshal call)
+		type hop struct {
+			c  *Field
+			tn string
+		}
+		hopsOf := func(mm *Message) []hop {
+			var out []hop
+			for _, c := range mm.All {
+				tn := ""
+				switch {
+				case c.Card == "map" && c.Val.Kind == "message":
+					tn = c.Val.MsgName
+				case c.Kind == "message" && c.Card != "map":
+					tn = c.MsgName
+				}
+				if tn != "" {
+					out = append(out, hop{c, tn})
+				}
+			}
+			return out
+		}
+		firstMap := func(mm *Message) *Field {
+			for _, f := range mm.All {
+				if f.Card == "map" {
+					return f
+				}
+			}
+			return nil
+		}
+		attach := func(parent string, c *Field, child string) {
+			switch c.Card {
+			case "singular":
+				g.p("\t%s.%s = %s", parent, c.GoName, child)
+			case "repeated":
+				g.p("\t%s.%s = %s{%s}", parent, c.GoName, c.GoType, child)
+			case "oneof":
+				g.p("\t%s.%s = &%s{%s: %s}", parent, c.Oneof.GoName, c.Wrapper, c.WField, child)
+			case "map":
+				g.p("\t{")
+				g.p("\t\tvar zk %s", c.Key.GoType)
+				g.p("\t\t%s.%s = %s{zk: %s}", parent, c.GoName, c.MapGo, child)
+				g.p("\t}")
+			}
+		}
+		for _, h1 := range hopsOf(m) {
+			if g.tier != "thorough" && h1.c.Card != "map" && h1.c.Card != "oneof" {
+				// quick tier: the two shapes with their own marshal code (map-value closure, oneof
+				// switch ahead of the field loop); singular and repeated share options.Marshal
+				continue
+			}
+			t1 := g.s.ByName[h1.tn]
+			if mf := firstMap(t1); mf != nil {
+				g.p("// a two-entry map inside the message held by %s (%s)", h1.c.GoName, h1.c.Card)
+				g.p("func VH_C02_%s_via_%s_order() {", n, h1.c.GoName)
+				g.p("\tx := &%s{}", n)
+				g.p("\tt := &%s{}", h1.tn)
+				g.p("\tvhOrderBuildSmall_%s_%s(t, \"a\")", h1.tn, mf.GoName)
+				attach("x", h1.c, "t")
+				g.p("\tvhC02_%s(x)", n)
+				g.p("}")
+				g.p("")
+				continue
+			}
+			for _, h2 := range hopsOf(t1) {
+				t2 := g.s.ByName[h2.tn]
+				mf := firstMap(t2)
+				if mf == nil {
+					continue
+				}
+				g.p("// a two-entry map two levels down: %s (%s) -> %s (%s)", h1.c.GoName, h1.c.Card, h2.c.GoName, h2.c.Card)
+				g.p("func VH_C02_%s_via_%s_%s_order() {", n, h1.c.GoName, h2.c.GoName)
+				g.p("\tx := &%s{}", n)
+				g.p("\tt1 := &%s{}", h1.tn)
+				g.p("\tt2 := &%s{}", h2.tn)
+				g.p("\tvhOrderBuildSmall_%s_%s(t2, \"a\")", h2.tn, mf.GoName)
+				attach("t1", h2.c, "t2")
+				attach("x", h1.c, "t1")
+				g.p("\tvhC02_%s(x)", n)
+				g.p("}")
+				g.p("")
+				break
+			}
 		}
 	}
 	if prop == "C04" || prop == "C02" {
